@@ -166,6 +166,16 @@ def check(case, rec):
             again = cube_a.calculate([L[i] for i in perm])
             other = cube_for(dims_b).calculate(list(L))
             once_more = [cube_a.calculate([L[i]])[0] for i in range(len(L))]
+            # objects that first served cubes of ANOTHER dimensionality over the same rows (the grand total of a
+            # 0-dimensional cube, a cube over the first dimension alone) must give the same answers afterwards
+            toured = None
+            if dense and N > 0:
+                T = [make_func(kind, f, farg, warg, N) for f in funcs]  # N given: a 0-d count needs it
+                cube_cls = ccube if kind == "ccube" else xcube
+                cube_cls([]).calculate(list(T))
+                if len(dense) >= 2:
+                    cube_cls(dims_for()[:1]).calculate(list(T))
+                toured = [cube_for(dims_a).calculate([t])[0] for t in T]
             # an unweighted count holds no row-aligned argument, so the same object may also serve a cube with
             # ANOTHER number of rows: it must not remember anything about the first one
             other_rows = []
@@ -213,6 +223,13 @@ def check(case, rec):
         if not same(once_more[i], alone[i]):
             raise Violation("%s: %s re-used alone after a joint run gives a different result"
                             % (what, funcs[i]["agg"]), sig="%s reuse alone differs (%s)" % (kind, funcs[i]["agg"]))
+    if toured is not None:
+        for i, t in enumerate(toured):
+            if not same(t, alone[i]):
+                raise Violation("%s: a %s object that first served a 0-dimensional cube (and a cube over the first "
+                                "dimension alone) over the same rows gives a different result on the full cube than "
+                                "a fresh object" % (what, funcs[i]["agg"]),
+                                sig="%s object remembers a cube of another dimensionality (%s)" % (kind, funcs[i]["agg"]))
     if edited is not None:
         for i, (x, y) in enumerate(zip(*edited)):
             if not same(x, y):
